@@ -29,7 +29,9 @@ ASSUMPTIONS = [
 
 ERR = 1
 EXPECTED = {
-    "duplicate-node": {"SCHEMA_DUPLICATE_NODE", "SCHEMA_LIBRARY_INVALID"},
+    # every seeded copy has the owner (standard / library) of its original, so the clash is a plain duplicate, not the
+    # library-against-standard name clash (SCHEMA_LIBRARY_INVALID)
+    "duplicate-node": {"SCHEMA_DUPLICATE_NODE"},
     "undeclared-attribute": {"SCHEMA_ATTRIBUTE_INVALID"},
     "wrong-section-attribute": {"SCHEMA_ATTRIBUTE_INVALID"},
     "dangling-unit-class": {"SCHEMA_ATTRIBUTE_VALUE_INVALID"},
